@@ -9,19 +9,20 @@ ROOT = os.path.dirname(os.path.dirname(os.path.abspath(__file__)))
 BASELINE_OFF = ("cd /repo && /venv/bin/python -m pytest -ra -q -p no:cacheprovider --timeout=900 "
                 "--continue-on-collection-errors --junitxml=/tmp/liesel-baseline.junit.xml")
 
-# property -> (technique, level text, level note, design_ref)
-TABLE = {
-    "C05": ("exhaustive boundary-alphabet enumeration + Hypothesis float32 generation against a float32 reference rule; "
-            "harness-owned uniform draw and real PRNG keys incl. zero-draw keys; binomial frequency test",
-            "Generated-input search with an explicit float32 oracle of the acceptance rule: every combination of the boundary "
-            "alphabets (finite, +-inf, NaN, under/overflow edges) x six placements of u relative to a is enumerated, random float32 "
-            "triples and a Liesel graph model are added, real PRNG keys whose uniform draw is exactly 0.0 are searched for and replayed, "
-            "and the acceptance frequency over thousands of keys is compared with the reported probability. Exploration, not proof: "
-            "exhaustive only over the stated alphabets.",
-            "Trusts numpy float32 arithmetic as the reference; the harness-owned-u assertions apply only when mh_step draws via "
-            "jax.random.uniform (detected), otherwise distribution-free and frequency laws only.",
-            "DESIGN.md 3/C05"),
-}
+import ast
+
+
+def module_meta(path):
+    """TECHNIQUE / LEVEL_TEXT / LEVEL_NOTE string constants of a check module, read without importing it."""
+    out = {}
+    for node in ast.parse(open(path).read()).body:
+        if isinstance(node, ast.Assign) and len(node.targets) == 1 and isinstance(node.targets[0], ast.Name):
+            try:
+                out[node.targets[0].id] = ast.literal_eval(node.value)
+            except Exception:
+                pass
+    return out
+
 
 TODO_REASON = "check not built yet in this round (planned, see DESIGN.md section 3); not claimed until its check exists"
 
@@ -32,8 +33,9 @@ def main():
     checks, na = [], []
     for p in props:
         pid = p["id"]
-        if pid in have and pid in TABLE:
-            tech, text, note, ref = TABLE[pid]
+        meta = module_meta(have[pid]) if pid in have else {}
+        if pid in have and "TECHNIQUE" in meta:
+            tech, text, note, ref = meta["TECHNIQUE"], meta["LEVEL_TEXT"], meta["LEVEL_NOTE"], f"DESIGN.md section 3 / {pid}"
             checks.append({
                 "property_id": pid,
                 "quick_cmd": f"./check {pid} --tier quick",
